@@ -60,6 +60,645 @@ def A_batchloop(qual, coqname, params, elem_ty, names):
   return emit
 
 
+# ---------------------------------------------------------------------------
+# Wave 2: statement compiler for the numpy / list code of pad_examples, attach_mask,
+# BatchPreprocessor.__call__ (C03) and ShuffleRepeatBatchView.__iter__ (C04).
+#
+# Types added to the translator's subset (TY2):
+#   rows   one abstract column of examples (list A); an Examples dict is modelled by
+#          its rows, so `for k, v in examples.items():` binds v to that column and k
+#          to an opaque key that may only be used in `result[k] = ...`
+#   mask   list bool          batch  Batch.batch A (rows + mask)
+#   idxs   list nat (np.int32 index arrays)       rng  the number of rng.shuffle calls
+#          made so far on a fresh RandomState (the k-th call returns `shuf k buf`)
+#   fns    list (rows -> rows)                    outs list (list nat), the yielded batches
+# Forms added (everything else raises Unsupported):
+#   np.arange(n) <op> c                      -> map (fun j_ => j_ <op>? c) (py_range 0 n 1)
+#   np.zeros((size,) + v.shape[1:], v.dtype) -> np_zeros zero size
+#   np.zeros((n,), dtype=np.int32)           -> np_zeros 0%nat n
+#   np.arange(n, dtype=np.int32)             -> np_arange n
+#   a[i:j] (load, idxs)                      -> py_slice a i j
+#   a[:k] = v  /  a[i:j] = v                 -> np_assign_prefix / np_set_slice (option)
+#   a.size, a.shape[0]                       -> Z.of_nat (length a)
+#   X is None or e                           -> match X with None => true | Some X => e end
+#   rng = np.random.RandomState(self._seed)  -> rng := 0%nat ;  rng.shuffle(buf) -> buf := shuf rng buf; rng := S rng
+#   {k: v[indices] for k, v in <raw>.items()}-> indices   (rows are identified with their index)
+#   {k: v[index] for k, v in examples.items()}-> py_slice examples (fst index) (snd index)   (index : slice(a, b))
+#   slice stores are accepted only into arrays allocated by np.zeros in the same function
+#   (a store into a parameter / a dataset column would be an in-place mutation of the dataset)
+#   for f in FNS: x = f(x)                   -> x := fold_left (fun x f => f x) FNS x
+#   while (no yield inside)                  -> Fixpoint on fuel returning option (tuple of the assigned variables)
+#   while (with yield; generator's main loop)-> Fixpoint on fuel returning gres (GMore when the fuel runs out)
+#   yield e                                  -> out := out ++ [e]
+#   raise ValueError(...)                    -> None ;  bare `return` in a generator -> GDone out
+
+TY2 = {'Z': 'Z', 'bool': 'bool', 'optZ': '(option Z)', 'rows': 'rows', 'mask': 'mask', 'batch': 'batch',
+       'idxs': '(list nat)', 'rng': 'nat', 'fns': '(list (rows -> rows))', 'outs': '(list (list nat))',
+       'fn': '(rows -> rows)', 'slice': '(Z * Z)'}
+
+
+def _dotted_or_none(e):
+  try:
+    return dotted(e)
+  except Unsupported:
+    return None
+
+
+def _is_none_test(e):
+  return (isinstance(e, ast.Compare) and len(e.ops) == 1 and isinstance(e.ops[0], (ast.Is, ast.IsNot)) and
+          isinstance(e.comparators[0], ast.Constant) and e.comparators[0].value is None)
+
+
+_CMPOPS = {ast.Lt: '<?', ast.LtE: '<=?', ast.Gt: '>?', ast.GtE: '>=?', ast.Eq: '=?'}
+
+
+def _np_zeros2(ctx, e, env):
+  kw = {k.arg: k.value for k in e.keywords}
+  # np.zeros((size,) + v.shape[1:], v.dtype)
+  if len(e.args) == 2 and not kw:
+    sh, dt = e.args
+    ok = (isinstance(sh, ast.BinOp) and isinstance(sh.op, ast.Add) and isinstance(sh.left, ast.Tuple) and
+          len(sh.left.elts) == 1 and isinstance(sh.right, ast.Subscript) and
+          isinstance(sh.right.value, ast.Attribute) and sh.right.value.attr == 'shape' and
+          isinstance(sh.right.slice, ast.Slice) and sh.right.slice.step is None and sh.right.slice.upper is None and
+          isinstance(sh.right.slice.lower, ast.Constant) and sh.right.slice.lower.value == 1 and
+          isinstance(dt, ast.Attribute) and dt.attr == 'dtype' and
+          ast.dump(dt.value) == ast.dump(sh.right.value.value))
+    if not ok:
+      raise Unsupported('np.zeros: expected ((size,) + v.shape[1:], v.dtype)')
+    _, vt = ctx.expr(dt.value, env)
+    if vt != 'rows':
+      raise Unsupported('np.zeros: v is not a column')
+    n, _ = ctx.expr(sh.left.elts[0], env, 'Z')
+    return f'(np_zeros zero {n})', 'rows'
+  # np.zeros((n,), dtype=np.int32)
+  if len(e.args) == 1 and set(kw) == {'dtype'} and dotted(kw['dtype']) == 'np.int32' and \
+      isinstance(e.args[0], ast.Tuple) and len(e.args[0].elts) == 1:
+    n, _ = ctx.expr(e.args[0].elts[0], env, 'Z')
+    return f'(np_zeros 0%nat {n})', 'idxs'
+  raise Unsupported('np.zeros form')
+
+
+def _np_arange_idx(ctx, e, env):
+  kw = {k.arg: k.value for k in e.keywords}
+  if len(e.args) != 1 or set(kw) != {'dtype'} or dotted(kw['dtype']) != 'np.int32':
+    raise Unsupported('np.arange form')
+  n, _ = ctx.expr(e.args[0], env, 'Z')
+  return f'(np_arange {n})', 'idxs'
+
+
+def _random_state(ctx, e, env):
+  if len(e.args) != 1 or e.keywords or dotted(e.args[0]) != 'self._seed':
+    raise Unsupported('RandomState(...) argument')
+  return '0%nat', 'rng'
+
+
+class NpCtx(BatchCtx):
+  """Expressions of pad_examples / __call__ / ShuffleRepeatBatchView.__iter__."""
+
+  def _expr(self, e, env):
+    # elementwise comparison of np.arange(n) with an int: the mask expression
+    if isinstance(e, ast.Compare) and len(e.ops) == 1 and isinstance(e.left, ast.Call) and \
+        _dotted_or_none(e.left.func) == 'np.arange':
+      if len(e.left.args) != 1 or e.left.keywords or type(e.ops[0]) not in _CMPOPS:
+        raise Unsupported('np.arange(...) comparison form')
+      n, _ = self.expr(e.left.args[0], env, 'Z')
+      c, _ = self.expr(e.comparators[0], env, 'Z')
+      return f'(map (fun j_ : Z => (j_ {_CMPOPS[type(e.ops[0])]} {c})) (py_range 0 {n} 1))', 'mask'
+    if isinstance(e, ast.Subscript):
+      if isinstance(e.slice, ast.Slice):
+        base, ty = self.expr(e.value, env)
+        sl = e.slice
+        if ty != 'idxs' or sl.step is not None or sl.lower is None or sl.upper is None:
+          raise Unsupported('slice load form')
+        a, _ = self.expr(sl.lower, env, 'Z')
+        b, _ = self.expr(sl.upper, env, 'Z')
+        return f'(py_slice {base} {a} {b})', 'idxs'
+      if isinstance(e.value, ast.Attribute) and e.value.attr == 'shape' and isinstance(e.slice, ast.Constant) \
+          and e.slice.value == 0:
+        base, ty = self.expr(e.value.value, env)
+        if ty != 'idxs':
+          raise Unsupported('.shape[0] of a non-array')
+        return f'(Z.of_nat (length {base}))', 'Z'
+      raise Unsupported('subscript ' + ast.dump(e)[:120])
+    if isinstance(e, ast.Attribute) and e.attr == 'size' and isinstance(e.value, ast.Name) and \
+        env.get(e.value.id) == 'idxs':
+      return f'(Z.of_nat (length {e.value.id}))', 'Z'
+    if isinstance(e, ast.BoolOp) and isinstance(e.op, ast.Or) and len(e.values) == 2 and _is_none_test(e.values[0]) \
+        and isinstance(e.values[0].ops[0], ast.Is):
+      x, ty = self.expr(e.values[0].left, env)
+      if ty != 'optZ' or x not in env:
+        raise Unsupported('`is None or ...` on a non-optional name')
+      env2 = dict(env)
+      env2[x] = 'Z'
+      r, _ = self.expr(e.values[1], env2, 'bool')
+      return f'(match {x} with None => true | Some {x} => {r} end)', 'bool'
+    if isinstance(e, ast.DictComp):
+      # {k: v[indices] for k, v in self._client_dataset.raw_examples.items()}
+      g = e.generators
+      ok = (len(g) == 1 and not g[0].ifs and not g[0].is_async and isinstance(g[0].target, ast.Tuple) and
+            [getattr(t, 'id', None) for t in g[0].target.elts] == ['k', 'v'] and
+            isinstance(g[0].iter, ast.Call) and not g[0].iter.args and not g[0].iter.keywords and
+            isinstance(e.key, ast.Name) and e.key.id == 'k' and isinstance(e.value, ast.Subscript) and
+            isinstance(e.value.value, ast.Name) and e.value.value.id == 'v' and isinstance(e.value.slice, ast.Name))
+      if not ok:
+        raise Unsupported('dict comprehension form')
+      src, ix = _dotted_or_none(g[0].iter.func), e.value.slice.id
+      if src == 'self._client_dataset.raw_examples.items' and env.get(ix) == 'idxs':
+        return ix, 'idxs'
+      # slice_examples: {k: v[index] for k, v in examples.items()} with index = slice(a, b)
+      if src is not None and src.endswith('.items') and env.get(src[:-6]) == 'rows' and env.get(ix) == 'slice':
+        return f'(py_slice {src[:-6]} (fst {ix}) (snd {ix}))', 'rows'
+      raise Unsupported('dict comprehension form')
+    return super()._expr(e, env)
+
+
+class StFn:
+  """CPS statement compiler.  mode 'fun': result type `option <ret>` (Return e -> Some e,
+  raise -> None);  mode 'gen': generator, result type gres (yield appends to `out`)."""
+
+  def __init__(self, prefix, ctx, mode, ret=None):
+    self.prefix, self.ctx, self.mode, self.ret = prefix, ctx, mode, ret
+    self.aux, self.nloops, self.fuels = [], 0, []
+    self.fresh = set()     # names bound to an array allocated by np.zeros in this function
+
+  def expr(self, e, env, want=None):
+    return self.ctx.expr(e, env, want)
+
+  def nm(self, n):
+    return self.ctx.names.get(n, n)
+
+  def err(self):
+    return 'GErr' if self.mode == 'gen' else 'None'
+
+  def block(self, stmts, env, k):
+    if not stmts:
+      return k(env)
+    s, rest = stmts[0], stmts[1:]
+    if isinstance(s, ast.Expr) and isinstance(s.value, ast.Constant):
+      return self.block(rest, env, k)
+    # if EXAMPLE_MASK_KEY in examples: raise ValueError(...)   -- abstract rows carry no mask key
+    if isinstance(s, ast.If) and isinstance(s.test, ast.Compare) and len(s.test.ops) == 1 and \
+        isinstance(s.test.ops[0], ast.In):
+      ok = (isinstance(s.test.left, ast.Name) and s.test.left.id == 'EXAMPLE_MASK_KEY' and
+            isinstance(s.test.comparators[0], ast.Name) and env.get(s.test.comparators[0].id) == 'rows' and
+            not s.orelse and len(s.body) == 1 and self._is_value_error(s.body[0]) and self.mode == 'fun')
+      if not ok:
+        raise Unsupported('`in` test other than the mask-key guard')
+      return self.block(rest, env, k)
+    if isinstance(s, ast.Raise):
+      if not self._is_value_error(s) or self.mode != 'fun':
+        raise Unsupported('raise form')
+      return 'None'
+    if isinstance(s, ast.Return):
+      if self.mode == 'inner':
+        raise Unsupported('return inside a while loop')
+      if self.mode == 'gen':
+        if s.value is not None:
+          raise Unsupported('return with a value in a generator')
+        return 'GDone out'
+      if s.value is None:
+        raise Unsupported('bare return')
+      if isinstance(s.value, ast.Name) and env.get(s.value.id) == 'result1':
+        return f'Some (attach_mask {s.value.id}_rows {s.value.id}_mask)'
+      t, _ = self.expr(s.value, env, self.ret)
+      return f'Some {t}'
+    if isinstance(s, ast.Assign):
+      if len(s.targets) != 1:
+        raise Unsupported('chained assignment')
+      t, v = s.targets[0], s.value
+      if isinstance(t, ast.Subscript):
+        return self.store(t, v, rest, env, k)
+      if not isinstance(t, ast.Name):
+        raise Unsupported('assignment to something else than a local name (e.g. an attribute of self)')
+      n = t.id
+      if isinstance(v, ast.Dict):
+        # result = {EXAMPLE_MASK_KEY: <mask>}
+        if not (len(v.keys) == 1 and isinstance(v.keys[0], ast.Name) and v.keys[0].id == 'EXAMPLE_MASK_KEY'):
+          raise Unsupported('dict display form')
+        m, _ = self.expr(v.values[0], env, 'mask')
+        env2 = dict(env)
+        env2[n] = 'result0'
+        return f'let {n}_mask := {m} in ' + self.block(rest, env2, k)
+      val, ty = self.expr(v, env)
+      if ty not in TY2:
+        raise Unsupported(f'assignment of type {ty}')
+      if isinstance(v, ast.Call) and _dotted_or_none(v.func) == 'np.zeros':
+        self.fresh.add(n)
+      else:
+        self.fresh.discard(n)
+      env2 = dict(env)
+      env2[n] = ty
+      return f'let {n} := {val} in ' + self.block(rest, env2, k)
+    if isinstance(s, ast.AugAssign):
+      if not isinstance(s.op, (ast.Add, ast.Sub)) or not isinstance(s.target, ast.Name):
+        raise Unsupported('augmented assignment')
+      cur, _ = self.expr(s.target, env, 'Z')
+      val, _ = self.expr(s.value, env, 'Z')
+      op = '+' if isinstance(s.op, ast.Add) else '-'
+      return f'let {s.target.id} := ({cur} {op} {val}) in ' + self.block(rest, env, k)
+    if isinstance(s, ast.Expr) and isinstance(s.value, ast.Yield):
+      if self.mode != 'gen' or s.value.value is None:
+        raise Unsupported('yield')
+      val, _ = self.expr(s.value.value, env, 'idxs')
+      return f'let out := (out ++ [{val}]) in ' + self.block(rest, env, k)
+    if isinstance(s, ast.Expr) and isinstance(s.value, ast.Call):
+      c = s.value
+      f = _dotted_or_none(c.func)
+      # rng.shuffle(buf)
+      if isinstance(c.func, ast.Attribute) and c.func.attr == 'shuffle' and isinstance(c.func.value, ast.Name) and \
+          env.get(c.func.value.id) == 'rng' and len(c.args) == 1 and not c.keywords and \
+          isinstance(c.args[0], ast.Name) and env.get(c.args[0].id) == 'idxs':
+        r, b = c.func.value.id, c.args[0].id
+        return f'let {b} := (shuf {r} {b}) in let {r} := (S {r}) in ' + self.block(rest, env, k)
+      # assert_consistent_rows(out): one abstract column is always consistent
+      if f == 'assert_consistent_rows' and len(c.args) == 1 and not c.keywords and \
+          isinstance(c.args[0], ast.Name) and env.get(c.args[0].id) == 'rows':
+        return self.block(rest, env, k)
+      raise Unsupported('expression statement ' + ast.dump(s)[:120])
+    if isinstance(s, ast.If):
+      test = s.test
+      neg = isinstance(test, ast.UnaryOp) and isinstance(test.op, ast.Not)
+      inner = test.operand if neg else test
+      d = _dotted_or_none(inner) if isinstance(inner, (ast.Name, ast.Attribute)) else None
+      if d is not None and env.get(self.nm(d)) == 'fns':   # truthiness of a tuple of functions
+        a = self.block(s.body + rest, env, k)
+        b = self.block(s.orelse + rest, env, k)
+        if neg:
+          a, b = b, a
+        return f'(match {self.nm(d)} with _ :: _ => {a} | [] => {b} end)'
+      c, _ = self.expr(test, env, 'bool')
+      a = self.block(s.body + rest, env, k)
+      b = self.block(s.orelse + rest, env, k)
+      return f'(if {c} then {a} else {b})'
+    if isinstance(s, ast.For):
+      return self.for_(s, rest, env, k)
+    if isinstance(s, ast.While):
+      return self.while_(s, rest, env, k)
+    raise Unsupported('statement ' + ast.dump(s)[:160])
+
+  @staticmethod
+  def _is_value_error(s):
+    return isinstance(s, ast.Raise) and isinstance(s.exc, ast.Call) and _dotted_or_none(s.exc.func) == 'ValueError'
+
+  def store(self, t, v, rest, env, k):
+    if not isinstance(t.value, ast.Name):
+      raise Unsupported('subscript store target')
+    a = t.value.id
+    if isinstance(t.slice, ast.Slice):
+      sl = t.slice
+      if sl.step is not None or sl.upper is None:
+        raise Unsupported('slice store form')
+      ty = env.get(a)
+      if ty not in ('rows', 'idxs'):
+        raise Unsupported('slice store into ' + str(ty))
+      if a not in self.fresh:
+        raise Unsupported(f'slice store into {a}, which is not a fresh np.zeros array of this function')
+      val, _ = self.expr(v, env, ty)
+      hi, _ = self.expr(sl.upper, env, 'Z')
+      if sl.lower is None:
+        op = f'np_assign_prefix {a} {hi} {val}'
+      else:
+        lo, _ = self.expr(sl.lower, env, 'Z')
+        op = f'np_set_slice {a} {lo} {hi} {val}'
+      return f'(match {op} with Some {a} => {self.block(rest, env, k)} | None => {self.err()} end)'
+    # result[k] = padded   (k the opaque feature key of the enclosing items() loop)
+    if isinstance(t.slice, ast.Name) and env.get(t.slice.id) == 'key' and env.get(a) == 'result0':
+      val, _ = self.expr(v, env, 'rows')
+      env2 = dict(env)
+      env2[a] = 'result1'
+      return f'let {a}_rows := {val} in ' + self.block(rest, env2, k)
+    raise Unsupported('subscript store form')
+
+  def for_(self, s, rest, env, k):
+    if s.orelse:
+      raise Unsupported('for-else')
+    # for k, v in examples.items(): ...   (one abstract column)
+    if isinstance(s.target, ast.Tuple) and len(s.target.elts) == 2 and all(isinstance(x, ast.Name) for x in s.target.elts) \
+        and isinstance(s.iter, ast.Call) and not s.iter.args and not s.iter.keywords and \
+        isinstance(s.iter.func, ast.Attribute) and s.iter.func.attr == 'items' and \
+        isinstance(s.iter.func.value, ast.Name) and env.get(s.iter.func.value.id) == 'rows':
+      kn, vn = (x.id for x in s.target.elts)
+      if kn in env or vn in env:
+        raise Unsupported('loop variable shadows a name')
+      for n in ast.walk(ast.Module(body=s.body, type_ignores=[])):
+        if isinstance(n, (ast.For, ast.While, ast.Return, ast.Raise, ast.Break, ast.Continue, ast.Yield)):
+          raise Unsupported('control flow inside the items() loop')
+      env2 = dict(env)
+      env2[kn], env2[vn] = 'key', 'rows'
+
+      def after(e):
+        e = dict(e)
+        e.pop(kn, None)
+        return self.block(rest, e, k)
+      return f'let {vn} := {s.iter.func.value.id} in ' + self.block(s.body, env2, after)
+    # for f in FNS: x = f(x)
+    if isinstance(s.target, ast.Name) and isinstance(s.iter, (ast.Name, ast.Attribute)):
+      it = self.nm(dotted(s.iter))
+      if env.get(it) != 'fns' or len(s.body) != 1 or not isinstance(s.body[0], ast.Assign) or \
+          len(s.body[0].targets) != 1 or not isinstance(s.body[0].targets[0], ast.Name):
+        raise Unsupported('for loop form')
+      f, tgt, call = s.target.id, s.body[0].targets[0].id, s.body[0].value
+      if env.get(tgt) != 'rows' or f in env or not isinstance(call, ast.Call) or call.keywords or \
+          len(call.args) != 1 or not isinstance(call.func, ast.Name):
+        raise Unsupported('for loop body form')
+      env2 = dict(env)
+      env2[f] = 'fn'
+      if env2.get(call.func.id) != 'fn':
+        raise Unsupported('for loop body does not call the loop variable')
+      arg, _ = self.expr(call.args[0], env2, 'rows')
+      return (f'let {tgt} := (fold_left (fun ({tgt} : rows) ({f} : rows -> rows) => ({call.func.id} {arg})) {it} {tgt}) in '
+              + self.block(rest, env, k))
+    raise Unsupported('for loop form')
+
+  # -- while loops
+  def modified(self, stmts):
+    out = []
+
+    def add(n):
+      if n not in out:
+        out.append(n)
+    for s in stmts:
+      if isinstance(s, ast.Assign) and len(s.targets) == 1 and isinstance(s.targets[0], ast.Name):
+        add(s.targets[0].id)
+      elif isinstance(s, ast.Assign) and len(s.targets) == 1 and isinstance(s.targets[0], ast.Subscript) and \
+          isinstance(s.targets[0].value, ast.Name):
+        add(s.targets[0].value.id)
+      elif isinstance(s, ast.AugAssign) and isinstance(s.target, ast.Name):
+        add(s.target.id)
+      elif isinstance(s, ast.Expr) and isinstance(s.value, ast.Yield):
+        add('out')
+      elif isinstance(s, ast.Expr) and isinstance(s.value, ast.Call) and isinstance(s.value.func, ast.Attribute) and \
+          s.value.func.attr == 'shuffle' and isinstance(s.value.func.value, ast.Name) and \
+          len(s.value.args) == 1 and isinstance(s.value.args[0], ast.Name):
+        add(s.value.args[0].id)
+        add(s.value.func.value.id)
+      elif isinstance(s, (ast.If, ast.While)):
+        for n in self.modified(s.body) + self.modified(s.orelse):
+          add(n)
+      else:
+        raise Unsupported('statement inside while: ' + ast.dump(s)[:120])
+    return out
+
+  def used(self, node):
+    names = set()
+    for n in ast.walk(node):
+      if isinstance(n, ast.Name):
+        names.add(n.id)
+      if isinstance(n, ast.Attribute):
+        d = _dotted_or_none(n)
+        if d in self.ctx.names:
+          names.add(self.ctx.names[d])
+    return names
+
+  def while_(self, s, rest, env, k):
+    if s.orelse:
+      raise Unsupported('while-else')
+    has_yield = any(isinstance(n, ast.Yield) for n in ast.walk(s))
+    mod = self.modified(s.body)
+    if has_yield:
+      # the generator's main loop: everything after it must fall off the end
+      if self.mode != 'gen' or rest:
+        raise Unsupported('yielding loop must be the last statement of a generator')
+      local = [v for v in mod if v not in env]       # (re)initialised in every iteration
+      used = self.used(s)
+      params = [v for v in env if (v in used or v in mod) and env[v] in TY2]
+      self.nloops += 1
+      loop = f'{self.prefix}_loop{self.nloops}'
+      fuel = f'{self.prefix}_fuel{self.nloops}'
+      self.fuels.append(fuel)
+      c, _ = self.expr(s.test, env, 'bool')
+
+      def again(e):
+        for v in params:
+          if e.get(v) != env[v]:
+            raise Unsupported(f'loop variable {v} changes type')
+        return f'{loop} fuel {" ".join(params)}'
+      body = self.block(s.body, env, again)
+      ps = ' '.join(f'({v} : {TY2[env[v]]})' for v in params)
+      self.aux.append(
+          f'Fixpoint {loop} (fuel : nat) {ps} {{struct fuel}} : gres (list nat) :=\n'
+          f'  match fuel with O => GMore out | S fuel =>\n'
+          f'  if {c} then {body}\n  else GDone out end.')
+      del local
+      return f'{loop} {fuel} {" ".join(params)}'
+    # variables first assigned inside the body are loop-local lets (a use before the
+    # assignment, or after the loop, is an unknown name -> Unsupported)
+    used = self.used(s)
+    params = [v for v in env if (v in used or v in mod) and env[v] in TY2]
+    live = [v for v in mod if v in env]
+    tup = '(' + ', '.join(live) + ')'
+    self.nloops += 1
+    loop = f'{self.prefix}_loop{self.nloops}'
+    fuel = f'{self.prefix}_fuel{self.nloops}'
+    self.fuels.append(fuel)
+    c, _ = self.expr(s.test, env, 'bool')
+    sub = StFn(self.prefix, self.ctx, 'inner')
+    sub.fresh = self.fresh
+
+    def again(e):
+      for v in params:
+        if e.get(v) != env[v]:
+          raise Unsupported(f'loop variable {v} changes type')
+      return f'{loop} fuel {" ".join(params)}'
+    body = sub.block(s.body, env, again)
+    if sub.aux:
+      raise Unsupported('nested while inside while')
+    ret = ' * '.join(TY2[env[v]] for v in live)
+    ps = ' '.join(f'({v} : {TY2[env[v]]})' for v in params)
+    self.aux.append(
+        f'Fixpoint {loop} (fuel : nat) {ps} {{struct fuel}} : option ({ret}) :=\n'
+        f'  match fuel with O => None | S fuel =>\n'
+        f'  if {c} then {body}\n  else Some {tup} end.')
+    after = self.block(rest, env, k)
+    return f'(match {loop} {fuel} {" ".join(params)} with Some {tup} => {after} | None => {self.err()} end)'
+
+
+def _closed(emit):
+  """Any error of the emitter on an unforeseen syntax tree is a translation failure
+  of this module only (never a crash of the whole translator run)."""
+  def wrapped(tree):
+    try:
+      return emit(tree)
+    except Unsupported:
+      raise
+    except Exception as ex:   # pylint: disable=broad-except
+      raise Unsupported(f'emitter error {type(ex).__name__}: {ex}')
+  return wrapped
+
+
+def _strip_doc(body):
+  return [s for s in body if not (isinstance(s, ast.Expr) and isinstance(s.value, ast.Constant))]
+
+
+def A_rowsfun(qual, coqname, params, ret, names=None, calls=None):
+  """A plain function over abstract rows: `option <ret>`."""
+  def emit(tree):
+    fd = find_def(tree, qual)
+    got = [a.arg for a in fd.args.args if a.arg != 'self']
+    want = [n for n, _ in params if not n.startswith('self_')]
+    if got != want:
+      raise Unsupported(f'{qual}: parameters {got}, expected {want}')
+    f = StFn(coqname, NpCtx(names, calls), 'fun', ret)
+    env = {n: t for n, t in params}
+
+    def off_end(e):
+      raise Unsupported(f'{qual}: control reaches the end of the function without return')
+    body = f.block(_strip_doc(fd.body), env, off_end)
+    if f.aux:
+      raise Unsupported(f'{qual}: loop in a rows function')
+    ps = ' '.join(f'({n} : {TY2[t]})' for n, t in params)
+    return f'Definition {coqname} {ps} : option {TY2[ret]} :=\n  {body}.'
+  return _closed(emit)
+
+
+def A_generator(qual, coqname, params, names=None, calls=None):
+  """A generator method whose yields are index arrays: `gres (list nat)`; every
+  while loop runs on its own fuel variable (Section variables <coqname>_fuel<i>)."""
+  def emit(tree):
+    fd = find_def(tree, qual)
+    if [a.arg for a in fd.args.args] != ['self']:
+      raise Unsupported(f'{qual}: parameters')
+    f = StFn(coqname, NpCtx(names, calls), 'gen')
+    env = {n: t for n, t in params}
+    env['out'] = 'outs'
+    body = f.block(_strip_doc(fd.body), env, lambda e: 'GDone out')
+    ps = ' '.join(f'({n} : {TY2[t]})' for n, t in params)
+    out = [f'Section {coqname}_sec.']
+    out += [f'Variable {v} : nat.' for v in sorted(f.fuels)]
+    out += f.aux
+    out.append(f'Definition {coqname} {ps} : gres (list nat) :=\n  let out := @nil (list nat) in {body}.')
+    out.append(f'End {coqname}_sec.')
+    return '\n'.join(out)
+  return _closed(emit)
+
+
+_MUTATORS = {'append', 'extend', 'clear', 'pop', 'popitem', 'update', 'setdefault', 'sort', 'reverse', 'shuffle',
+             'remove', 'insert', 'add', 'discard', 'fill', 'resize', 'put', 'itemset', 'setflags', '__setitem__',
+             '__setattr__', '__delattr__', '__delitem__'}
+
+
+def _root_is_self(e):
+  while isinstance(e, (ast.Attribute, ast.Subscript)):
+    e = e.value
+  return isinstance(e, ast.Name) and e.id == 'self'
+
+
+def A_pure_iter(quals):
+  """Syntactic side condition for "iterating the same view again gives identical batches /
+  never mutates the dataset": the anchored __iter__ methods never assign, delete or
+  augmented-assign anything reachable from `self` (view attributes, the client dataset,
+  its raw examples), declare no global / nonlocal, and call no known in-place mutator
+  on something reachable from `self`.  Emits only a comment; fails closed otherwise."""
+  def emit(tree):
+    for qual in quals:
+      fd = find_def(tree, qual)
+      for n in ast.walk(fd):
+        targets = []
+        if isinstance(n, ast.Assign):
+          targets = n.targets
+        elif isinstance(n, (ast.AugAssign, ast.AnnAssign)):
+          targets = [n.target]
+        elif isinstance(n, ast.Delete):
+          targets = n.targets
+        elif isinstance(n, (ast.Global, ast.Nonlocal)):
+          raise Unsupported(f'{qual}: global / nonlocal')
+        elif isinstance(n, ast.NamedExpr):
+          targets = [n.target]
+        for t in targets:
+          for x in ast.walk(t):
+            if isinstance(x, (ast.Attribute, ast.Subscript)) and _root_is_self(x):
+              raise Unsupported(f'{qual}: writes to state reachable from self: {ast.unparse(t)}')
+        if isinstance(n, ast.Call) and isinstance(n.func, ast.Attribute) and n.func.attr in _MUTATORS and \
+            _root_is_self(n.func.value):
+          raise Unsupported(f'{qual}: in-place call {ast.unparse(n.func)} on state reachable from self')
+        if isinstance(n, ast.Call) and _dotted_or_none(n.func) in ('setattr', 'delattr'):
+          raise Unsupported(f'{qual}: setattr / delattr')
+    return '(* checked syntactically: ' + ', '.join(quals) + ' do not write to anything reachable from self *)'
+  return _closed(emit)
+
+
+def A_plumbing(qual, params, kwarg, expected, drop_assign_to=None):
+  """Attribute / argument plumbing pinned VERBATIM: the signature and the statements of
+  `qual` (docstring removed; the statement group assigning `drop_assign_to`, which is
+  translated by its own anchor, removed) must be exactly `expected`.  The reading of these
+  statements (dataclass `replace(**kwargs)` overrides every given field; `len(client_dataset)`
+  is ClientDataset.__len__; attributes are only copied) is part of the trusted base; any
+  edit is a broken tie.  Emits a comment."""
+  def emit(tree):
+    fd = find_def(tree, qual)
+    got = [a.arg for a in fd.args.args]
+    if got != params or (fd.args.kwarg.arg if fd.args.kwarg else None) != kwarg or fd.args.vararg or \
+        fd.args.kwonlyargs or fd.args.posonlyargs or fd.decorator_list:
+      raise Unsupported(f'{qual}: signature {got}')
+    body = _strip_doc(fd.body)
+    if drop_assign_to:
+      grp = _assign_to(fd, drop_assign_to)
+      body = [s for s in body if all(s is not g for g in grp)]
+    want = ast.parse(expected).body
+    if [ast.dump(s) for s in body] != [ast.dump(s) for s in want]:
+      raise Unsupported(f'{qual}: body is not the pinned plumbing: ' + ' ; '.join(ast.unparse(x) for x in body)[:300])
+    return f'(* pinned verbatim: {qual} *)'
+  return _closed(emit)
+
+
+def _hparams_entry(cls, view):
+  return (f'if hparams is None:\n  hparams = {cls}(**kwargs)\nelif kwargs:\n  hparams = hparams.replace(**kwargs)\n'
+          f'return {view}(self, hparams)\n')
+
+
+def _num_examples_call(ctx, e, env):
+  kw = {k.arg: k.value for k in e.keywords}
+  if len(e.args) != 1 or not set(kw) <= {'validate'} or \
+      ('validate' in kw and not (isinstance(kw['validate'], ast.Constant) and isinstance(kw['validate'].value, bool))):
+    raise Unsupported('num_examples(...) form')
+  r, _ = ctx.expr(e.args[0], env, 'rows')
+  return f'(Z.of_nat (length {r}))', 'Z'
+
+
+def _isinstance_slice(ctx, e, env):
+  if len(e.args) != 2 or e.keywords or not isinstance(e.args[0], ast.Name) or env.get(e.args[0].id) != 'slice' or \
+      _dotted_or_none(e.args[1]) != 'slice':
+    raise Unsupported('isinstance(...) form')
+  return 'true', 'bool'
+
+
+def _slice_examples2(ctx, e, env):
+  if len(e.args) == 2 and isinstance(e.args[1], ast.Name) and env.get(e.args[1].id) == 'slice' and not e.keywords:
+    r, _ = ctx.expr(e.args[0], env, 'rows')
+    return f'(py_slice {r} (fst {e.args[1].id}) (snd {e.args[1].id}))', 'rows'
+  return _slice_examples(ctx, e, env)
+
+
+def _client_dataset_ctor(ctx, e, env):
+  # ClientDataset(<raw examples>, self.preprocessor): the new dataset's raw examples; the preprocessor is carried over
+  if len(e.args) != 2 or e.keywords or _dotted_or_none(e.args[1]) != 'self.preprocessor':
+    raise Unsupported('ClientDataset(...) form')
+  return ctx.expr(e.args[0], env, 'rows')
+
+
+def A_paddedloop_checked(qual, coqname, params, names):
+  """PaddedBatchView.__iter__ once more, with pad_examples bound to the TRANSLATED
+  gen_pad_examples (option batch): the elements are `option batch`."""
+  class OptCtx(BatchCtx):
+    def _expr(self, e, env):
+      t, ty = super()._expr(e, env)
+      if isinstance(e, ast.Dict) and ty == 'batch':
+        return f'(Some {t})', 'optbatch'
+      return t, ty
+  calls = {
+      'slice_examples': _slice_examples,
+      'np.ones': _np_ones_bool,
+      'self._client_dataset.preprocessor': ('pre {0}', ['rows'], 'rows'),
+      'pad_examples': ('gen_pad_examples {0} {1}', ['rows', 'Z'], 'optbatch'),   # same Section: zero is bound
+  }
+
+  def emit(tree):
+    fd = find_def(tree, qual)
+    return emit_genloop(fd, coqname, params, OptCtx(names, calls), 'optbatch')
+  return _closed(emit)
+
+
 MODULES = {
     'Gen_client_datasets': {
         'src': CD,
@@ -94,6 +733,82 @@ MODULES = {
                                'self._client_dataset.raw_examples': 'raw'}),
         ],
     },
+    # ---- wave 2 (C03): pad_examples, attach_mask, BatchPreprocessor.__call__, and the padded
+    # loop once more with the translated pad_examples plugged in
+    'Gen_client_datasets_pad': {
+        'src': CD,
+        'preamble': ('From FV Require Import Common.Batch Common.NpArr.\n'
+                     'Section Gen_client_datasets_pad.\nContext {A : Type} (zero : A) (pre : list A -> list A).\n'
+                     'Notation rows := (list A).\nNotation mask := (list bool).\nNotation batch := (batch A).\n'
+                     'Notation optbatch := (option (Batch.batch A)).\n'),
+        'postamble': 'End Gen_client_datasets_pad.\n',
+        'items': [
+            A_rowsfun('pad_examples', 'gen_pad_examples', [('examples', 'rows'), ('size', 'Z')], 'batch',
+                      calls={'num_examples': ('Z.of_nat (length {0})', ['rows'], 'Z'), 'np.zeros': _np_zeros2}),
+            A_rowsfun('attach_mask', 'gen_attach_mask', [('examples', 'rows'), ('mask', 'mask')], 'batch'),
+            A_rowsfun('slice_examples', 'gen_slice_examples', [('examples', 'rows'), ('index', 'slice')], 'rows'),
+            A_rowsfun('BatchPreprocessor.__call__', 'gen_preprocessor_call',
+                      [('self_fns', 'fns'), ('examples', 'rows')], 'rows',
+                      names={'self._fns': 'self_fns'}, calls={'dict': ('{0}', ['rows'], 'rows')}),
+            # the dataset object: length and slicing (translated), constructor and view entry points (pinned)
+            A_rowsfun('ClientDataset.__len__', 'gen_dataset_len', [('self_raw_examples', 'rows')], 'Z',
+                      names={'self.raw_examples': 'self_raw_examples'}, calls={'num_examples': _num_examples_call}),
+            A_rowsfun('ClientDataset.__getitem__', 'gen_dataset_getitem',
+                      [('self_raw_examples', 'rows'), ('index', 'slice')], 'rows',
+                      names={'self.raw_examples': 'self_raw_examples'},
+                      calls={'isinstance': _isinstance_slice, 'slice_examples': _slice_examples2,
+                             'ClientDataset': _client_dataset_ctor}),
+            A_plumbing('ClientDataset.__init__', ['self', 'raw_examples', 'preprocessor'], None,
+                       'assert_consistent_rows(raw_examples)\nself.raw_examples = raw_examples\n'
+                       'self.preprocessor = preprocessor\n'),
+            A_plumbing('ClientDataset.batch', ['self', 'hparams'], 'kwargs', _hparams_entry('BatchHParams', 'BatchView')),
+            A_plumbing('ClientDataset.padded_batch', ['self', 'hparams'], 'kwargs',
+                       _hparams_entry('PaddedBatchHParams', 'PaddedBatchView')),
+            A_plumbing('BatchView.__init__', ['self', 'client_dataset', 'hparams'], None,
+                       'self._client_dataset = client_dataset\nself._batch_size = hparams.batch_size\n'
+                       'self._drop_remainder = hparams.drop_remainder\nself._data_size = len(client_dataset)\n'),
+            A_plumbing('PaddedBatchView.__init__', ['self', 'client_dataset', 'hparams'], None,
+                       'self._client_dataset = client_dataset\nself._data_size = len(client_dataset)\n'
+                       'self._batch_size = hparams.batch_size\n'
+                       'self._final_batch_size = _pick_final_batch_size(\n'
+                       '    self._data_size, self._batch_size, hparams.num_batch_size_buckets)\n'),
+            A_pure_iter(['BatchView.__iter__', 'PaddedBatchView.__iter__']),
+            A_paddedloop_checked('PaddedBatchView.__iter__', 'padded_batch_view_iter_checked',
+                                 [('raw', 'rows'), ('data_size', 'Z'), ('batch_size', 'Z'), ('final_batch_size', 'Z')],
+                                 names={'self._data_size': 'data_size', 'self._batch_size': 'batch_size',
+                                        'self._final_batch_size': 'final_batch_size',
+                                        'self._client_dataset.raw_examples': 'raw'}),
+        ],
+    },
+    # ---- wave 2 (C04): the whole generator ShuffleRepeatBatchView.__iter__
+    'Gen_client_datasets_shuffle': {
+        'src': CD,
+        'preamble': ('From FV Require Import Common.NpArr.\n'
+                     'Section Gen_client_datasets_shuffle.\nVariable shuf : nat -> list nat -> list nat.\n'),
+        'postamble': 'End Gen_client_datasets_shuffle.\n',
+        'items': [
+            A_plumbing('ClientDataset.__init__', ['self', 'raw_examples', 'preprocessor'], None,
+                       'assert_consistent_rows(raw_examples)\nself.raw_examples = raw_examples\n'
+                       'self.preprocessor = preprocessor\n'),
+            A_plumbing('ClientDataset.__len__', ['self'], None, 'return num_examples(self.raw_examples, validate=False)\n'),
+            A_plumbing('ClientDataset.__getitem__', ['self', 'index'], None,
+                       'if not isinstance(index, slice):\n'
+                       "  raise ValueError(f'Only slicing is supported, got index {index!r}')\n"
+                       'return ClientDataset(slice_examples(self.raw_examples, index), self.preprocessor)\n'),
+            A_plumbing('ClientDataset.shuffle_repeat_batch', ['self', 'hparams'], 'kwargs',
+                       _hparams_entry('ShuffleRepeatBatchHParams', 'ShuffleRepeatBatchView')),
+            A_plumbing('ShuffleRepeatBatchView.__init__', ['self', 'client_dataset', 'hparams'], None,
+                       'self._client_dataset = client_dataset\nself._data_size = len(client_dataset)\n'
+                       'self._batch_size = hparams.batch_size\nself._seed = hparams.seed\n'
+                       'self._skip_shuffle = hparams.skip_shuffle\n', drop_assign_to='self._num_steps'),
+            A_pure_iter(['ShuffleRepeatBatchView.__iter__']),
+            A_generator('ShuffleRepeatBatchView.__iter__', 'srb_iter',
+                        [('data_size', 'Z'), ('batch_size', 'Z'), ('self_num_steps', 'optZ'), ('skip_shuffle', 'bool')],
+                        names={'self._data_size': 'data_size', 'self._batch_size': 'batch_size',
+                               'self._num_steps': 'self_num_steps', 'self._skip_shuffle': 'skip_shuffle'},
+                        calls={'np.arange': _np_arange_idx, 'np.zeros': _np_zeros2,
+                               'np.random.RandomState': _random_state,
+                               'self._client_dataset.preprocessor': ('{0}', ['idxs'], 'idxs')}),
+        ],
+    },
 }
-
-
